@@ -12,6 +12,16 @@ CHECKS = {
    text="Seeded simulation of random operation sequences (append/read/set-offset/flush/sync/discard/copy/close-reopen/crash-reopen) over the real singleapp and multiapp code under an option swarm, compared step by step with an in-memory byte-log model; crash images (process kill, power loss with lost/torn un-synced writes, crash in the middle of the previous operation) and injected write/fsync/read errors. Sampling, not proof.",
    note="Trusts the shadow-disk model (durable = fsynced; directory entries durable after a directory sync; 512-byte sector tearing) and the byte-log reference model in checks/c17_test.go. True parallelism inside the appendables is not explored (interleaving only at simhook yield points).",
    technique="deterministic simulation: seeded op sequences + crash/fault injection vs reference byte-log model"),
+ "C02": dict(
+   level="exploration", design="DESIGN.md §7 C02",
+   text="Seeded simulation of the real embedded/store: 1-4 concurrent committer tasks (plain, write-only, async, preconditions, cancelled contexts, tx metadata) and a maintenance task (index flush/compaction, Sync, re-reads, proofs) interleaved by the cooperative scheduler at simhook yield points, under a store-option swarm and 1-3 clean close/reopen cycles. Oracle after every cycle and after every reopen: ids dense, every acknowledged tx reads back (ReadTx, ReadValue, ExportTx) exactly as acknowledged, PrevAlh chain, BlRoot equals a reference Merkle root, CommittedAlh is the last tx, dual proofs from acknowledged states verify. Sampling of schedules, not proof.",
+   note="Interleavings exist only at the yield points listed in DESIGN.md §4; the ledger is recorded by the harness at acknowledgement time; the reference Merkle tree is checks/merkle_ref_test.go.",
+   technique="deterministic simulation: seeded schedules of concurrent committers vs ledger/reference-Merkle oracle"),
+ "C04": dict(
+   level="exploration", design="DESIGN.md §7 C04",
+   text="Same simulated store workload as C02 with the indexer as a scheduled task (yield between reading a bulk and inserting it, so snapshots are arbitrarily stale and flush/compaction/close land mid-bulk) and an indexing-option swarm (bulk size, flush/sync thresholds, node size, cache, buffered-data limits). Oracle after every cycle and reopen: Get, History (both directions, offset/limit), GetBetween and full scans (asc/desc, deleted/expired filtered) equal a key-value model rebuilt from the committed log.",
+   note="Default index only so far (prefixed/mapped indexes are exercised through the SQL checks); expirations use the simulated clock.",
+   technique="deterministic simulation: seeded schedules of writers/indexer/maintenance vs key-value model of the log"),
 }
 
 NOT_APPLICABLE = [
